@@ -15,7 +15,9 @@ RULE = ("TestC11: a case = one history (13-130 events) of oracle messages run on
         "block heights around vote-period boundaries: prevotes (honest / upper-case hex / hash without validator / hash "
         "copied from another validator / garbage), votes (matching reveal, wrong salt, textually different but "
         "equal-parsing rates, other rates, unparsable or non-whitelisted rates), feeder delegations, VotePeriod / "
-        "whitelist edits by the sudo root or a stranger, jail / unjail / create validator, EndBlocker per height, "
+        "whitelist edits by the sudo root or a stranger, staking transitions through the real staking keeper + EndBlocker (jail / unjail, MaxValidators shrunk so that "
+        "the weakest validators are displaced = Unbonding not jailed, full self-undelegation, unbonding time passing = "
+        "Unbonded / removed, create validator), oracle EndBlocker per height, "
         "messages with broken addresses; senders = validator, current delegate, former delegate, stranger, other "
         "validator. non-trivial = the history has an accepted vote AND a vote refused for period / hash / feeder / "
         "not-bonded / no-prevote / unknown-pair (or, tx level, for a foreign signature); distinct = distinct input. "
@@ -90,7 +92,7 @@ def _msg(op, o):
     if k == "delegate":
         return "Delegate %d %d" % (_aid(op, "val"), _aid(op, "delegate"))
     if k == "edit":
-        return "EditParams %s %s" % (_b(op.get("sudo", False)), _z(op.get("vp", 0)))
+        return "EditParams %s %s %s" % (_b(op.get("sudo", False)), _z(op.get("vp", 0)), _b(o.get("edit_valid", True)))
     if k == "end":
         return "EndBlock"
     if k == "bad":
@@ -147,8 +149,13 @@ def classify(rec):
           "events=%d0s" % (len(ops) // 10)]
     deleg = {}
     former = {}
+    vstate = rec["obs"]["init"].get("vstate") or ["?"] * NADDR
     for op, o in zip(ops, rec["obs"]["steps"]):
         k = op["kind"]
+        if k in ("prevote", "vote"):
+            f, v = _aid(op, "feeder"), _aid(op, "val")
+            who = "validator" if f == v else "feeder" if deleg.get(v) == f else "other"
+            ks.append("%s-for-%s-validator-by-%s:%s" % (k, vstate[v], who, "ok" if o["acc"] else "refused"))
         ks.append("op:" + k)
         if "signer" in op and k != "end":
             named = _aid(op, "val") if k == "delegate" else _aid(op, "feeder")
@@ -169,7 +176,8 @@ def classify(rec):
             deleg[v] = _aid(op, "delegate")
             former.get(v, set()).discard(deleg[v])
         if k == "edit":
-            ks.append("edit:%s" % o["reason"])
+            ks.append("edit:%s" % ("ok" if o["acc"] else "unauthorized" if o["reason"] == "unauthorized" else "invalid-params"))
+        vstate = o.get("vstate") or vstate
     return ks
 
 
